@@ -35,7 +35,7 @@ FAIL_RE = re.compile(r"^FAIL (\S+) (.*?) :: (\S+)\s?(.*)$")
 # was not finite: 0 in 90000 programs -> cap 0.001 per program.  Functions used: 74 / 67 / 80 / 78 in every run
 # of >= 300 programs -> at least that minus 4.  Generator (SUMMARY.gen = [attempts, rejected with Error, emitted]
 # per function): 41 of 17.4 million valid-by-construction calls were rejected with Error (sum / mean of a node
-# list 40 of 160000, pick 1); a function is flagged when all, or more than half, of >= 20 calls are rejected.
+# list 40 of 160000, pick 1); a function is flagged when all of >= 10 calls are dropped or more than half of >= 20 rejected.
 FLOOR_NONTRIVIAL = {"grad": 0.5, "batch": 0.42, "api": 0.5, "backend": 0.5, "conv": 0.5}
 FLOOR_FUNCTIONS = {"grad": 70, "batch": 63, "api": 76, "backend": 74}
 
@@ -57,7 +57,7 @@ def floor_problems(mode, n, res):
         bad.append("the driver reported no generator table")
     for op in sorted(gen):
         att, rej, emitted = gen[op]
-        if att >= 20 and emitted == 0:
+        if att >= 10 and emitted == 0:
             bad.append("function `%s`: all %d valid-by-construction calls of the generator were dropped (%d rejected with Error): it is in no program" % (op, att, rej))
         elif att >= 20 and 2 * rej > att:
             bad.append("function `%s`: %d of %d valid-by-construction calls rejected with Error" % (op, rej, att))
